@@ -11,168 +11,180 @@ import (
 	"verif/sim/nodeh"
 )
 
-func TestExplore(t *testing.T) {
-	if os.Getenv("TTL_EXPLORE") == "" {
+// TestScenario replays, through the full node path, the minimal command/time
+// sequence of each finding of this engine and prints the replies.
+//   TTL_SCENARIO=<name> VERIF_SCRATCH=/dev/shm/x ttlsim.test -test.run TestScenario -test.cpu 1
+// names: append setrange del hdel hclear-replay hclear-replay-persist same-ns formats ld-stale ld-shorter ld-mem-deadlock ld-replay
+func TestScenario(t *testing.T) {
+	name := os.Getenv("TTL_SCENARIO")
+	if name == "" {
 		t.Skip()
 	}
-	pol := os.Getenv("TTL_EXPLORE")
+	ld := len(name) > 2 && name[:3] == "ld-"
+	eng := os.Getenv("TTL_ENGINE")
+	if eng == "" {
+		eng = "mem"
+	}
 	synctest.Test(t, func(t *testing.T) {
 		c := core.NewRunCtx(t, "C10", "quick", core.NewTape(1))
-		opt := nodeh.Options{Machines: 1, Partitions: 1, Replicas: 1, Engine: "mem", SnapCount: 20, SnapCatchup: 3, KeepBackup: 1}
-		if pol == "wc" {
+		opt := nodeh.Options{Machines: 1, Partitions: 1, Replicas: 1, Engine: eng, SnapCount: 1000, SnapCatchup: 3, KeepBackup: 1}
+		if ld {
+			opt.ExpPolicy = "local_deletion"
+		} else {
 			opt.ExpPolicy = "wait_compact"
 			opt.DataVersion = "value_header_v1"
-		} else {
-			opt.ExpPolicy = "local_deletion"
 		}
 		cl := nodeh.New(c, opt)
 		defer cl.Close()
 		cl.PumpFair(80, func() bool { return cl.Leader(0) >= 0 })
-		m := cl.M[0]
-		now := func() string { n := time.Now(); return fmt.Sprintf("%d.%03d", n.Unix(), n.Nanosecond()/1e6) }
+		t0 := time.Now()
+		frozen := false
 		do := func(args ...interface{}) {
-			t0 := time.Now()
-			call := cl.Invoke(m, nodeh.Cmd(args...))
-			imm := call.Done()
-			rounds := 0
-			for !call.Done() && rounds < 100 {
+			call := cl.Invoke(cl.M[0], nodeh.Cmd(args...))
+			for r := 0; !call.Done() && r < 100; r++ {
 				cl.PumpFair(1, nil)
-				rounds++
 			}
 			r, _ := call.Reply()
-			fmt.Fprintf(core.Stdout, "[%s] %v -> %s  (imm=%v rounds=%d dt=%v)\n", now(), args, nodeh.Fmt(r), imm, rounds, time.Since(t0))
+			fmt.Fprintf(core.Stdout, "[T+%7.3fs] %v -> %s\n", time.Since(t0).Seconds(), args, nodeh.Fmt(r))
+			if !frozen {
+				cl.Sleep(time.Millisecond)
+			}
 		}
-		K := "default:t:k"
-		do("set", K, "v0")
-		do("setex", K, "5", "abc")
-		do("ttl", K)
-		do("get", K)
-		do("mset", K, "x", "default:t:k2", "y")
-		do("plset", K, "x", "default:t:k2", "y")
-		do("get", K)
-		do("ttl", K)
-		do("ttl", "default:t:none")
-		do("persist", K)
-		do("expire", K, "3")
-		do("exists", K)
-		do("exists", K, "default:t:k2")
-		cl.Sleep(3 * time.Second)
-		do("get", K)
-		do("exists", K)
-		do("append", K, "zz")
-		do("get", K)
-		do("ttl", K)
-		do("del", K)
-		do("setex", K, "2", "old")
-		cl.Sleep(2 * time.Second)
-		do("del", K)
-		do("setex", K, "2", "old")
-		cl.Sleep(2 * time.Second)
-		do("setrange", K, "1", "Q")
-		do("get", K)
-		do("setex", K, "2", "7")
-		cl.Sleep(2 * time.Second)
-		do("incr", K)
-		do("ttl", K)
-		do("setex", K, "2", "7")
-		cl.Sleep(2 * time.Second)
-		do("getset", K, "n")
-		do("setex", K, "2", "7")
-		cl.Sleep(2 * time.Second)
-		do("setnx", K, "n2")
-		do("get", K)
-		do("setbit", "default:t:b", "5", "1")
-		do("bexpire", "default:t:b", "2")
-		do("bttl", "default:t:b")
-		do("getbit", "default:t:b", "5")
-		do("bkeyexist", "default:t:b")
-		cl.Sleep(2 * time.Second)
-		do("getbit", "default:t:b", "5")
-		do("setbit", "default:t:b", "6", "1")
-		do("bitcount", "default:t:b")
-		// hash
-		H := "default:t:h"
-		do("hset", H, "f1", "a")
-		do("hmset", H, "f2", "b", "f3", "c")
-		do("hexpire", H, "3")
-		do("httl", H)
-		do("hgetall", H)
-		do("hlen", H)
-		do("hkeyexist", H)
-		cl.Sleep(3 * time.Second)
-		do("hgetall", H)
-		do("hlen", H)
-		do("hkeyexist", H)
-		do("httl", H)
-		do("hset", H, "f9", "z")
-		do("hgetall", H)
-		do("hlen", H)
-		do("httl", H)
-		do("hincrby", H, "cnt", "5")
-		do("hdel", H, "f9", "cnt")
-		do("hkeyexist", H)
-		do("hclear", H)
-		do("hpersist", H)
-		// list
-		L := "default:t:l"
-		do("rpush", L, "a", "b", "c")
-		do("lexpire", L, "3")
-		do("lttl", L)
-		do("lrange", L, "0", "-1")
-		cl.Sleep(3 * time.Second)
-		do("lrange", L, "0", "-1")
-		do("llen", L)
-		do("lkeyexist", L)
-		do("lpop", L)
-		do("lset", L, "0", "x")
-		do("ltrim", L, "0", "1")
-		do("lpush", L, "n")
-		do("lrange", L, "0", "-1")
-		do("lttl", L)
-		do("lclear", L)
-		// set
-		S := "default:t:s"
-		do("sadd", S, "a", "b", "c")
-		do("sexpire", S, "3")
-		do("sttl", S)
-		do("smembers", S)
-		cl.Sleep(3 * time.Second)
-		do("smembers", S)
-		do("scard", S)
-		do("skeyexist", S)
-		do("srem", S, "a")
-		do("spop", S)
-		do("sadd", S, "n")
-		do("smembers", S)
-		do("spop", S, "2")
-		do("sclear", S)
-		// zset
-		Z := "default:t:z"
-		do("zadd", Z, "1", "a", "2", "b")
-		do("zexpire", Z, "3")
-		do("zttl", Z)
-		do("zrange", Z, "0", "-1", "withscores")
-		cl.Sleep(3 * time.Second)
-		do("zrange", Z, "0", "-1", "withscores")
-		do("zcard", Z)
-		do("zkeyexist", Z)
-		do("zrem", Z, "a")
-		do("zincrby", Z, "2.5", "a")
-		do("zadd", Z, "7", "n")
-		do("zrange", Z, "0", "-1", "withscores")
-		do("zscore", Z, "a")
-		do("zttl", Z)
-		do("zclear", Z)
-		do("zpersist", Z)
-		do("set", K, "v", "ex", "5")
-		do("ttl", K)
-		do("set", K, "v2", "nx")
-		do("set", K, "v3", "xx")
-		do("ttl", K)
-		do("strlen", K)
-		do("mget", K, "default:t:k2")
-		do("decr", "default:t:cnt")
-		do("decrby", "default:t:cnt", "4")
-		do("incrby", "default:t:cnt", "10")
+		sleep := func(d time.Duration) {
+			cl.Sleep(d)
+			fmt.Fprintf(core.Stdout, "            ... %v pass ...\n", d)
+		}
+		restart := func(down time.Duration) {
+			cl.Kill(cl.M[0])
+			cl.Sleep(down)
+			if err := cl.Restart(cl.M[0]); err != nil {
+				t.Fatal(err)
+			}
+			cl.PumpFair(100, func() bool { return cl.Leader(0) >= 0 })
+			fmt.Fprintf(core.Stdout, "            ... kill -9, restarted, leader at T+%.3fs ...\n", time.Since(t0).Seconds())
+		}
+		K, H := "default:t:k", "default:t:h"
+		switch name {
+		case "append":
+			do("setex", K, "2", "old")
+			sleep(2 * time.Second)
+			do("get", K)
+			do("append", K, "new")
+			do("get", K)
+			do("ttl", K)
+		case "setrange":
+			do("setex", K, "2", "old")
+			sleep(2 * time.Second)
+			do("get", K)
+			do("setrange", K, "1", "Q")
+			do("get", K)
+		case "del":
+			do("setex", K, "2", "old")
+			sleep(2 * time.Second)
+			do("exists", K)
+			do("del", K)
+		case "hdel":
+			do("hset", H, "f", "v")
+			do("hexpire", H, "2")
+			sleep(2 * time.Second)
+			do("hkeyexist", H)
+			do("hgetall", H)
+			do("hdel", H, "f")
+		case "hclear-replay":
+			do("hset", H, "f", "old")
+			do("hexpire", H, "5")
+			sleep(time.Second)
+			do("hclear", H)
+			do("hset", H, "g", "new")
+			do("hgetall", H)
+			do("httl", H)
+			restart(5 * time.Second)
+			do("hgetall", H)
+			do("hkeyexist", H)
+		case "hclear-replay-persist":
+			do("hset", H, "f", "old")
+			do("hexpire", H, "5")
+			sleep(time.Second)
+			do("hclear", H)
+			do("hpersist", H)
+			do("hset", H, "g", "new")
+			do("hgetall", H)
+			restart(5 * time.Second)
+			do("hgetall", H)
+			do("httl", H)
+		case "ld-stale":
+			do("setex", K, "100", "v")
+			do("del", K)
+			do("set", K, "w")
+			do("get", K)
+			sleep(299 * time.Second)
+			do("get", K)
+			sleep(2 * time.Second)
+			do("get", K)
+		case "ld-shorter":
+			do("setex", K, "600", "v")
+			do("expire", K, "100")
+			sleep(299 * time.Second)
+			do("get", K)
+			sleep(2 * time.Second)
+			do("get", K)
+		case "ld-mem-deadlock":
+			do("setex", K, "100", "v")
+			do("hset", H, "f", "v")
+			do("hexpire", H, "100")
+			sleep(299 * time.Second)
+			do("get", K)
+			fmt.Fprintf(core.Stdout, "            ... sleeping across the background pass (hangs on the mem engine) ...\n")
+			sleep(2 * time.Second)
+			do("get", K)
+			do("set", K, "again")
+		case "formats":
+			S, Z, L := "default:t:s", "default:t:z", "default:t:l"
+			do("hmset", H, "f1", "a", "f2", "b")
+			do("sadd", S, "a", "b")
+			do("zadd", Z, "1", "a", "2", "b")
+			do("rpush", L, "a", "b")
+			do("set", K, "hello")
+			do("hexpire", H, "2")
+			do("sexpire", S, "2")
+			do("zexpire", Z, "2")
+			do("lexpire", L, "2")
+			do("expire", K, "2")
+			for i := 0; i < 2; i++ {
+				do("hscan", H, "", "count", "100")
+				do("sscan", S, "", "count", "100")
+				do("zscan", Z, "", "count", "100")
+				do("srandmember", S, "5")
+				do("zrangebyscore", Z, "-inf", "+inf")
+				do("zrevrange", Z, "0", "-1")
+				do("zcount", Z, "-inf", "+inf")
+				do("zrank", Z, "b")
+				do("getrange", K, "1", "3")
+				do("scan", "default:t:", "count", "100")
+				do("advscan", "default:t:", "kv", "count", "100")
+				do("advscan", "default:t:", "hash", "count", "100")
+				do("advscan", "default:t:", "list", "count", "100")
+				do("advscan", "default:t:", "set", "count", "100")
+				do("advscan", "default:t:", "zset", "count", "100")
+				sleep(2 * time.Second)
+			}
+		case "same-ns":
+			// three commands carrying one and the same nanosecond log timestamp
+			frozen = true
+			do("hset", H, "f", "old")
+			do("hclear", H)
+			do("hset", H, "g", "new")
+			frozen = false
+			do("hgetall", H)
+			do("hlen", H)
+		case "ld-replay":
+			do("setex", K, "100", "v1")
+			sleep(301 * time.Second)
+			do("get", K)
+			do("setnx", K, "v2")
+			do("get", K)
+			restart(time.Second)
+			do("get", K)
+		}
 	})
 }
